@@ -1394,8 +1394,14 @@ func c14NewGen(w *c14World, salt uint64) *c14Gen {
 		strings.Replace(v, `Name = "Kirkpatrick"`, `Name = "AsIsInvalid"`, 1) + "MaximumSedimentProduction = 900.0\n",
 		strings.Replace(v, `Name = "Kirkpatrick"`, `Name = "Grüße ☃"`, 1),
 		strings.Replace(v, `Name = "Kirkpatrick"`, `Name = ""`, 1),
+		// the SAME name as the first entry, other content: a vegetation target that changes which actions the scenario
+		// offers (a re-post under its own name must replace everything the engine derived from the earlier posting)
+		v + "RiparianBufferVegetationProportionTarget = 0.2\n",
+		v + "GullySedimentReductionTarget = 0.5\nHillSlopeDeliveryRatio = 0.2\n",
 	}
 	g.badScen = []string{
+		// a byte order mark in front of an otherwise valid text (what spreadsheet and notepad exports prepend)
+		"\xef\xbb\xbf" + v,
 		"This isn't TOML",
 		"",
 		c15ReadFile("testdata/InvalidModelTestScenario.toml"),
@@ -1840,6 +1846,8 @@ func runC14(args []string) {
 		nhist = 200
 	}
 	g.summaryCanonical()
+	g.repostSameName()
+	g.manyLabels(70)
 	for i := 0; i < nhist; i++ {
 		g.summaryHistory(i, 3+g.p.intn(4), 0.2)
 	}
